@@ -18,6 +18,14 @@ def _nonzero_const(rel, name):
     return int(m.group(1).replace("_", ""))
 
 
+def _zip318_interval(rel):
+    src = srcgen.read(rel)
+    m = re.search(r"pub const ZIP_318: Self = Self\(NonZeroU32::new\(\s*([0-9_]+)\s*\)", src)
+    if not m:
+        raise SrcgenError("AnchorBucketInterval::ZIP_318 not found in %s" % rel)
+    return int(m.group(1).replace("_", ""))
+
+
 def _zat_const(rel, name, env):
     """`pub const NAME: Zatoshis = Zatoshis::const_from_u64(<expr>);`"""
     src = srcgen.read(rel)
@@ -128,6 +136,7 @@ class C17(Config):
             ("PREP_DELAY_CAP", _nonzero_const(ZP, "PREP_DELAY_CAP")),
             ("TRANSFER_DELAY_MEAN", _nonzero_const(ZP, "TRANSFER_DELAY_MEAN")),
             ("TRANSFER_DELAY_CAP", _nonzero_const(ZP, "TRANSFER_DELAY_CAP")),
+            ("ZIP318_INTERVAL", _zip318_interval(ZP)),
             ("PROVABLE_ANCHOR_DEPTH", depth), ("WAKEUP_DEFAULT_MARGIN", margin), ("WAKEUP_DEFAULT_JITTER", jitter),
             ("CODE_UNKNOWN", to["Unknown"]), ("CODE_NONCONFORMING", to["Nonconforming"]),
             ("CODE_PREPARATION", to["Preparation"]), ("CODE_TRANSFER", to["Transfer"]),
